@@ -1297,6 +1297,17 @@ class Engine:
                 if isinstance(st, ast.Assign) and len(st.targets) == 1 and isinstance(st.targets[0], ast.Name) \
                         and st.targets[0].id == attr and literal_expression(st.value):
                     return eval_literal_expression(st.value)
+                if isinstance(st, ast.Assign) and len(st.targets) == 1 and isinstance(st.targets[0], ast.Name) \
+                        and st.targets[0].id == attr and all(
+                            n.id in ('frozenset', 'set', 'tuple') or isinstance(getattr(n, 'ctx', None), ast.Store) or
+                            any(isinstance(p, ast.Attribute) and p.value is n for p in ast.walk(st.value))
+                            for n in ast.walk(st.value) if isinstance(n, ast.Name)):
+                    # built from enum members / constants of other classes (X = frozenset({Enum.A, Enum.B})): the
+                    # contract's attribute models say what those are
+                    try:
+                        return self.eval(st.value)
+                    except Unsupported:
+                        break
         init = next((m for m in cls.body if isinstance(m, ast.FunctionDef) and m.name == '__init__'), None) if cls else None
         if init is None:
             return NotImplemented
@@ -1742,7 +1753,7 @@ class Engine:
             elif hasattr(a, 'compare') and isinstance(b, (tuple, PyList)):
                 items = b.items if isinstance(b, PyList) else b
                 r = z3.Or(*[zbool(a.compare(self, ast.Eq(), x, False)) for x in items]) if items else False
-            elif isinstance(b, (tuple, PyList, dict, str)) and not is_sym(a) and not isinstance(a, (Opt, SStr)):
+            elif isinstance(b, (tuple, PyList, dict, str, set, frozenset)) and not is_sym(a) and not isinstance(a, (Opt, SStr)):
                 items = b.items if isinstance(b, PyList) else b
                 r = a in items
             elif isinstance(b, (tuple, PyList)) and z3.is_expr(a):
@@ -1977,6 +1988,13 @@ class Engine:
         raise Unsupported(f'call of {f!r}')
 
     def call_method(self, recv, name, args, kwargs, e):
+        if isinstance(recv, (set, frozenset)) and name in ('intersection', 'union', 'difference') and len(args) == 1 and not kwargs:
+            if hasattr(args[0], 'set_op'):
+                return args[0].set_op(self, {'difference': 'rdifference'}.get(name, name), recv)
+            if isinstance(args[0], (set, frozenset)):
+                return getattr(recv, name)(args[0])
+            if isinstance(args[0], PyList) and all(isinstance(x, (str, int)) for x in args[0].items):
+                return getattr(recv, name)(args[0].items)
         if type(recv).__name__ == 'Pattern' and name in ('sub', 'match', 'search', 'fullmatch', 'findall', 'split') and not kwargs \
                 and all(type(a) in (str, int) for a in args):
             r = getattr(recv, name)(*args)      # a compiled regular expression applied to concrete text: plain execution
@@ -2257,7 +2275,12 @@ class Engine:
             return self.truth(args[0])
         if name in ('min', 'max'):
             if len(args) == 1:
-                raise Unsupported('min/max of a sequence')
+                if isinstance(args[0], (PyList, tuple)) and not kwargs:
+                    args = list(args[0].items if isinstance(args[0], PyList) else args[0])
+                    if not args:
+                        raise PyRaise('ValueError')         # min() / max() of an empty sequence
+                else:
+                    raise Unsupported('min/max of a sequence of unknown length')
             r = self.num(args[0], e)
             for x in args[1:]:
                 x = self.num(x, e)
@@ -2350,6 +2373,11 @@ class Engine:
             return PyList([(start + k, x) for k, x in enumerate(items)])
         if name == 'list' and len(args) == 1 and isinstance(args[0], PyList):
             return PyList(list(args[0].items))
+        if name in ('frozenset', 'set') and len(args) <= 1 and not kwargs and (not args or (
+                isinstance(args[0], (PyList, tuple, list, set, frozenset)) and
+                all(isinstance(x, (str, int)) for x in (args[0].items if isinstance(args[0], PyList) else args[0])))):
+            items = () if not args else (args[0].items if isinstance(args[0], PyList) else args[0])
+            return frozenset(items) if name == 'frozenset' else PyList(list(dict.fromkeys(items)))
         if name == 'map' and len(args) == 2 and isinstance(args[1], (PyList, tuple, list)) and not kwargs:
             # map(f, xs) over a list of known length; evaluated eagerly (every use in scope consumes it at once)
             items = args[1].items if isinstance(args[1], PyList) else list(args[1])
